@@ -651,6 +651,15 @@ func c10Check(ci any, o *core.Obs) {
 					// to cusps and tight loops of Béziers
 					tol = math.Max(tol, 1e-5*scale)
 				}
+				if sg := req[i].Segs[k]; sg.Kind == geom.Arc {
+					// ... and next to the tip of a needle-like arc: where the radius of curvature at the end of
+					// the long axis (rmin^2/rmax) is below that resolution, two equivalent spellings of one arc
+					// (radii swapped, rotation + 90 degrees) differ by as much in the reference itself
+					rmin, rmax := math.Min(math.Abs(sg.Rx), math.Abs(sg.Ry)), math.Max(math.Abs(sg.Rx), math.Abs(sg.Ry))
+					if rmax > 0 && rmin*rmin/rmax < 1e-5*scale {
+						tol = math.Max(tol, 1e-5*scale)
+					}
+				}
 			}
 		}
 		h1, at1 := geom.HausdorffSubs(req, built, 8)
